@@ -211,7 +211,7 @@ func runChild(exe, dir string, r crashRun) []failure {
 	add := func(kind, detail string) {
 		fails = append(fails, failure{
 			fe: r.feName(), family: r.family(), via: "real-process", kind: kind, cond: r.cond(),
-			hook: "unset", core: "file:" + r.sink, derived: "none", message: "non-blank", dev: r.level == "dpanic", detail: desc + ": " + detail, caseID: r.id(),
+			hook: "unset", core: "file:" + r.sink, derived: "none", message: "non-blank", occurrence: "1", history: histNone, clock: "real", dev: r.level == "dpanic", detail: desc + ": " + detail, caseID: r.id(),
 		})
 	}
 	tail := stderr.String()
